@@ -51,12 +51,36 @@ def check_shape(j, c, m):
     return bad
 
 
+def small_values(r):
+    """a one-loop polygon close to a divergence: dod (hence the table's generalised dods of spanning subsets, the Gamma(dod) in the
+    factor) is a small non-dyadic number, and where the acceptance rule allows it one edge weight is below 0.1: stored floats whose
+    decimal text needs all 17 SIGNIFICANT digits"""
+    fams = [f for f in G.FAMILIES if f[0] in ("bubble", "triangle", "box", "pentagon")]
+    for _ in range(40):
+        c = SC.gen_sample_case(r, emax=5, fams=fams)
+        E, D = len(c["edges"]), c["D"]
+        delta = r.choice([0.03, 0.0123, 0.0071, 0.051, 0.0907, 0.00093])
+        ws = [(D / 2.0 + delta) / E + (r.unit() - 0.5) * 0.02 for _ in range(E)]
+        if r.chance(0.5):
+            k = r.below(E)
+            tiny = r.choice([0.0371, 0.0813, 0.0097])
+            ws = [tiny if e == k else w + (ws[k] - tiny) / (E - 1) for e, w in enumerate(ws)]
+        g = dict(edges=[(a, b, m, w) for (a, b, m, _), w in zip(c["edges"], ws)], externals=c["externals"], D=D)
+        ok, tab, dod, L = G.accepted(g)
+        if ok and 0 < dod < 0.1 and min(ws) > 0:
+            c["edges"] = [[a, b, m, f2b(w)] for (a, b, m, _), w in zip(c["edges"], ws)]
+            c["family"] = "near_divergent_" + str(c.get("family"))
+            return c
+    return c
+
+
 def run(rep, rng, tier, replay=None):
     ncase = 40 if tier == "quick" else 300
+    nsmall = 8 if tier == "quick" else 40
     cases = []
-    for i in range(ncase):
+    for i in range(ncase + nsmall):
         r = rng.fork()
-        c = SC.gen_sample_case(r, emax=6)
+        c = SC.gen_sample_case(r, emax=6) if i < ncase else small_values(r)
         E, L, D = len(c["edges"]), c["L"], c["D"]
         dim = G.num_variables(E, L, D)
         ops = []
@@ -148,5 +172,5 @@ def run(rep, rng, tier, replay=None):
     rep.cov["large_samplers"] = [dict(E=len(c["edges"]), family=c["family"]) for c in big]
     rep.cov["rule"] = ("accepted connected graphs from all families, D=1..6; the implementation's JSON must equal the model's sampler field for field (names, order, values: catches "
                        "serde(skip), renamed or recomputed fields); round trip through serde_json, ciborium and an in-memory value tree that writes structs as positional sequences (as MessagePack's compact mode): re-serialisation byte-identical, equal dimension/dod, and 6 points per "
-                       "sampler (random, all 2^-30, all 1-2^-53) sampled bit-identically by original, JSON-restored and CBOR-restored samplers; two large samplers (theta graphs with 11 and 12 edges) through the same round trips. non-trivial = E>=3 (shape) / every sample")
+                       "sampler (random, all 2^-30, all 1-2^-53) sampled bit-identically by original, JSON-restored and CBOR-restored samplers; two large samplers (theta graphs with 11 and 12 edges) through the same round trips; 8 (40) one-loop polygons with 0 < dod < 0.1 and an edge weight below 0.1 (small stored floats). non-trivial = E>=3 (shape) / every sample")
     rep.assumptions.append("serde_json, ciborium and the harness value-tree format preserve the serde data model and f64 exactly")
